@@ -178,6 +178,8 @@ def solver_level(ctx, stop_first=False):
         dict(name="td+screening", dev="ring", td=True, o=dict(include_screening=True, screening_tolerance=1e-3), lam=1.0),
         dict(name="td+screening+unpinned-terminals", dev="bar", td=True, cur={"source": 2.0, "drain": -2.0}, o=dict(include_screening=True, screening_tolerance=1e-3, terminal_psi=None), lam=1.0),
         dict(name="td", dev="bar", td=True, cur={"source": 2.0, "drain": -2.0}, o=dict()),
+        # a thermalisation stage first: the clock restarts at 0, so the field jumps back to its t = 0 value
+        dict(name="td+thermalisation", dev="bar", td=True, cur={"source": 2.0, "drain": -2.0}, o=dict(skip_time=0.05, solve_time=0.04)),
         dict(name="td-slow-ramp-small-steps", dev="bar", td="slow", cur={"source": 2.0, "drain": -2.0}, o=dict(dt_init=1e-4, solve_time=4e-3)),
         dict(name="td-slow-ramp+gauge-offset", dev="bar", td="slow", offset=(30.0, -20.0), cur={"source": 2.0, "drain": -2.0}, o=dict(dt_init=1e-3, solve_time=2e-2)),
     ]
